@@ -26,6 +26,53 @@ def sh(cmd, timeout=None, env=None, cwd=None, check=False):
         return 124, out
 
 
+def unwrap_tlc(out):
+    """TLC pretty-prints a value wider than its line width over several lines (<< "TAG",\n   1,\n   <<..>> >>).  Every
+    consumer of printed tuples works on single lines, so wrapped values are joined back into TLC's own single-line form."""
+    res = []; buf = None; depth = 0
+    def scan(line, depth):
+        inq = False; i = 0
+        while i < len(line):
+            c = line[i]
+            if inq:
+                if c == '\\': i += 1
+                elif c == '"': inq = False
+            elif c == '"': inq = True
+            elif line.startswith('<<', i): depth += 1; i += 1
+            elif line.startswith('>>', i): depth -= 1; i += 1
+            i += 1
+        return depth
+    def squeeze(t):
+        o = []; inq = False; i = 0
+        while i < len(t):
+            c = t[i]
+            if inq:
+                o.append(c)
+                if c == '\\' and i + 1 < len(t): i += 1; o.append(t[i])
+                elif c == '"': inq = False
+            elif c == '"': inq = True; o.append(c)
+            elif c in ' \t':
+                if o and o[-1] != ' ': o.append(' ')
+            else: o.append(c)
+            i += 1
+        t = ''.join(o)
+        # outside strings only: TLC writes "<< " / " >>" in the wrapped form
+        parts = re.split(r'("(?:[^"\\]|\\.)*")', t)
+        for k in range(0, len(parts), 2): parts[k] = parts[k].replace('<< ', '<<').replace(' >>', '>>').replace('[ ', '[').replace(' ]', ']').replace('{ ', '{').replace(' }', '}')
+        return ''.join(parts)
+    for line in out.splitlines():
+        if buf is None:
+            if line.startswith('<<') or line.startswith('[ ') or line.startswith('{ '):
+                d = scan(line, 0) if line.startswith('<<') else (1 if line.rstrip()[-1:] not in (']', '}') else 0)
+                if line.startswith('<<') and d > 0: buf = [line]; depth = d; continue
+            res.append(line)
+        else:
+            buf.append(line.strip()); depth = scan(line, depth)
+            if depth <= 0: res.append(squeeze(' '.join(buf))); buf = None
+    if buf: res.extend(buf)
+    return '\n'.join(res)
+
+
 class Ctx:
     def __init__(self, prop, tier, seed):
         self.prop, self.tier, self.seed = prop, tier, seed
@@ -40,7 +87,7 @@ class Ctx:
         self.samples = []
         self.notes = []
         self.assumptions = []
-        self.builds = {}
+        self.builds = {}; self.hxdirs = {}
         self.kf = load_known_findings()
         self.kf_seen = set()
         self.timing = []
@@ -61,8 +108,13 @@ class Ctx:
             if variant == 'tsan': env = {'HX_CC': 'clang', 'HX_CFLAGS': '-O1 -g -fsanitize=thread'}
             rc, out = sh([os.path.join(VERIF, 'lib/build_harness.sh'), b], timeout=900, env=env)
             if rc != 0: raise Machinery(f'harness build failed ({variant}):\n{out[-3000:]}')
+            self.hxdirs[b] = out.strip().splitlines()[-1]
         self.builds[variant] = b
         return b
+
+    def hx(self, build, exe='verif-hx'):
+        """path of a harness executable built for this library build"""
+        return os.path.join(self.hxdirs[build], exe)
 
     # ---------------------------------------------------------------- setup / L0
     def ensure_setup(self):
@@ -89,6 +141,8 @@ class Ctx:
         cmd = [os.path.join(VERIF, 'lib/tlc.sh')] + (['--pure'] if pure else []) + ['--heap', heap, '--timeout', str(timeout), '--',
                '-workers', str(workers or NCPU), '-config', cfgp] + list(extra_args) + [f'{module}.tla']
         rc, out = sh(cmd, timeout=timeout + 60)
+        nl0 = out.count('\n'); out = unwrap_tlc(out)
+        if out.count('\n') != nl0: self.notes.append(f'{name}: TLC wrapped printed values over {nl0 - out.count(chr(10))} extra lines; re-joined')
         m = re.search(r'(\d+) states generated, (\d+) distinct states found', out)
         res = dict(name=name, rc=rc, wall=round(time.time() - t0, 1), out=out,
                    transitions=int(m.group(1)) if m else 0, states=int(m.group(2)) if m else 0)
@@ -110,7 +164,7 @@ class Ctx:
     def run_driver(self, build, driver, shards=None, extra='', timeout=900, tier=None):
         """runs verif-hx <driver> for each shard in parallel; returns list of trace paths"""
         shards = shards or 1
-        hx = os.path.join(build, 'verif-hx')
+        hx = self.hx(build)
         tier = tier or self.tier
         def one(k):
             path = os.path.join(self.scratch, f'{driver}.{os.path.basename(build)[-12:]}.{k}.ndjson')
